@@ -746,6 +746,11 @@ fn print_sheet(rng: &mut Rng, rules: &[Rule], style: usize) -> String {
                 "a[href] span { color: #123456 }",
                 "li:not(.z) em { background-color: #123456 }",
                 "p + p, em[title] p { color: #123456; }",
+                "li:nth-child(2 of .b) { color: #123456; }",
+                "p:nth-child(foo) { color: #123456 }",
+                "li:nth-child() em { color: #123456; }",
+                "li:nth-child(n + ) { background-color: #123456; }",
+                "div:nth-of-type(2) { color: #123456; }",
             ]));
             o.push_str(&ws(rng));
         }
@@ -1118,6 +1123,15 @@ fn gen_c18(tier: &str, rng: &mut Rng) -> Vec<Case> {
             let k = rng.below(marked.len().min(deleted.len()) + 1);
             marked.insert(k, H::El("style".into(), vec![], vec![H::Text(rule)]));
             deleted.insert(k, H::El("style".into(), vec![], vec![H::Text(".nomatch{color:red}".into())]));
+        }
+        // inline declarations against the document's own sheet: the style attribute wins over any
+        // selector of the same importance ("div.hide, p.hide ... { display:block }" in the style
+        // element cannot un-hide an element hidden by its style attribute)
+        if mode == 1 && rng.chance(1, 2) {
+            let k = rng.below(marked.len().min(deleted.len()) + 1);
+            let rule = "p, div, li, span, td, tr, table, em, strong, a, ul, ol, blockquote, h1, h2, h3, h4, h5, h6, dl, dd, dt, pre, code { display: block; }";
+            marked.insert(k, H::El("style".into(), vec![], vec![H::Text(rule.into())]));
+            deleted.insert(k, H::El("style".into(), vec![], vec![H::Text(rule.into())]));
         }
         // two origins: a user sheet that says the opposite with HIGHER specificity loses to the
         // document's (author) rule for normal declarations
